@@ -186,7 +186,7 @@ def run_check(tier, seed):
     if not ok:
         broken.append({'kind': 'harness-build', 'log': out[-3000:]})
     else:
-        n = 24 if tier == "quick" else 1500      # (trimmed from 40 when the deterministic audit blocks were added)
+        n = 20 if tier == "quick" else 1500      # (trimmed from 40 when the deterministic audit blocks were added)
         cases, obs, badh = oc.explore(PROP, seed, n, False, bindir, 'c10', patterns=('full' if tier == 'thorough' else True), open_flags_enum=('full' if tier == 'thorough' else True))
         if badh: broken.append({'kind': 'harness', 'name': 'harness output incomplete or layers not materialised as generated', 'cases': badh[:5]})
         analyse(cases, obs, bindir, 'a', findings, broken, stats)
